@@ -45,7 +45,7 @@ NODE_OPS = ('replace', 'remove', 'cut', 'put', 'setitem', 'delitem', 'setattr', 
 
 def params(tier):
     if tier == 'quick':
-        return {'examples': 1500, 'wall': 80, 'case_timeout': 20, 'max_steps': 4}
+        return {'examples': 1500, 'wall': 120, 'case_timeout': 20, 'max_steps': 4}
 
     return {'examples': 40000, 'wall': 600, 'case_timeout': 30, 'max_steps': 10}
 
@@ -632,14 +632,23 @@ def check_expr_insertion(root, step, parent, field, n, old, ctx) -> bool:
         pos = n if step['op'] in ('append', 'extend') or start == 7 else 0 if step['op'] in ('prepend', 'prextend') else max(0, min(n, start + n if start < 0 else start))
         prev_end = last_line(tails[pos - 1]) if pos > 0 else None
         next_start = first_line(elems[pos]) if pos < n else None
+        cont_end = getattr(parent, 'end_lineno', None) or max((x.end_lineno for x in ast.walk(parent) if hasattr(x, 'end_lineno')), default=None)
         olines = old.split('\n')
         kinds = set()
         leading_selected = trivia_split(ap.opts.get('trivia', True))[0] != 'none'
 
-        for t in otoks:
-            if t[0] != tokenize.COMMENT or t[1] not in lost:
-                continue
+        # which OCCURRENCES are gone (a text may occur several times): alignment of the old and the new comment sequence
+        import difflib
 
+        oseq = [t for t in otoks if t[0] == tokenize.COMMENT]
+        nseq = [t[1] for t in ntoks if t[0] == tokenize.COMMENT]
+        gone = []
+
+        for tag, i1, i2, _, _ in difflib.SequenceMatcher(None, [t[1] for t in oseq], nseq, autojunk=False).get_opcodes():
+            if tag in ('delete', 'replace'):
+                gone += oseq[i1:i2]
+
+        for t in gone:
             ln = t[2][0] + 1
             own = olines[ln - 1].lstrip().startswith('#')
 
@@ -648,8 +657,10 @@ def check_expr_insertion(root, step, parent, field, n, old, ctx) -> bool:
                     selected[t[1]] += 1  # the comment block directly before the insertion point is what the (default) trivia option selects for overwriting (docs d06)
                 else:
                     kinds.add('own_line_comment_before_insertion_point')
+            elif not own and pos == n and prev_end is not None and prev_end <= ln <= (cont_end or ln):
+                kinds.add('line_comment_of_last_element_on_append')  # after the last element (and its closing parentheses / trailing comma), before the container ends
             elif not own and prev_end is not None and ln == prev_end:
-                kinds.add('line_comment_of_last_element_on_append' if pos == n else 'line_comment_of_previous_element')
+                kinds.add('line_comment_of_previous_element')
             else:
                 kinds.add('elsewhere')
 
